@@ -39,22 +39,29 @@ def monitors(CL, LL, C02, cfg, events, drv, log, store0, store):
     if m:
         res.append(("C03_commit_le_processed", m))
     if store is not None:
-        # the coordinator's store holds the last acknowledged commit (or its initial value)
-        acks = [CL.v(a[0]) for (st, (ev, outs)) in enumerate(zip(events, steps)) for a in []]
+        # the coordinator's store: the acknowledgements it gave are exactly those the trace shows (in order); a commit it
+        # applied although the answer was lost carries an offset some commit request of this run really sent; it holds
+        # the last of all these (or its initial value)
         sent = None
-        want = store0
+        acks, allsent = [], []
         for ev, outs in zip(events, steps):
             if ev[0] == CL.EV_COMMIT_OK and sent is not None and not (outs and outs[0][0] == CL.OUT_IGNORED):
-                want, sent = sent, None
+                acks.append(sent)
+                sent = None
             elif ev[0] == CL.EV_COMMIT_FAIL:
                 sent = None
             for o in outs:
                 if o[0] == CL.OUT_COMMIT:
                     sent = None if o[1] == CL.NONE else o[1]
+                    allsent.append(sent)
                 elif o[0] == CL.OUT_CANCEL_REQ and o[1] == CL.R_COMMIT:
                     sent = None
-        if store.committed != want:
-            res.append(("coordinator store", "store holds %r, last acknowledged commit is %r" % (store.committed, want)))
+        if list(store.acked) != acks:
+            res.append(("coordinator store", "store acknowledged %r, the trace shows acknowledged commits %r" % (store.acked, acks)))
+        elif any(x not in allsent for x in store.lost):
+            res.append(("coordinator store", "store applied %r (answer lost), commit requests sent: %r" % (store.lost, allsent)))
+        elif not acks and not store.lost and store.committed != store0:
+            res.append(("coordinator store", "store holds %r, nothing was committed, initial value %r" % (store.committed, store0)))
     if log is not None:
         m = LL.mon_log(events, steps, log.entries, cfg.reset)
         if m:
@@ -123,6 +130,25 @@ def run(ck):
         ck.violation({"kind": "corpus F-C03-1: after the processor failed on [0, 1] the consumer delivered %r and the store holds %r"
                               % (drv.delivered, store.committed), "cfg": cfg.line(), "events": C02.jsonable(events), "replay_op": "events"})
 
+    # corpus: a commit request fails with a retriable error, more blocks complete while the retry timer is armed, the retry
+    # carries the FRESH last-processed offset and that is what gets acknowledged / recorded / reported to the waiter
+    cfg = CL.Cfg(group=1, acn=2)
+    log = LL.PartitionLog(random.Random(3), n=0, first=0)
+    for o in range(6):
+        log.units.append(LL.Unit("plain", 0, [(o, None, b"m%d" % o)]))
+    log.next = 6
+    store = LL.OffsetStore()
+    first = [(CL.EV_START, 0), (CL.EV_PLAN, 0, 0), (CL.EV_PLAN, 0, 2), (CL.EV_PLAN, 0, 0), "reply", (CL.EV_COMMIT_FAIL, CL.FK_KAFKA),
+             (CL.EV_PROC_FIRE, 1), (CL.EV_FIRE_COMMIT_RETRY,), (CL.EV_COMMIT_OK,)]
+    events, drv, env = LL.honest_run(random.Random(1), cfg, log, store, 0, fault=0.0, first=first)
+    ck.hist("corpus_commit_retry_interleaving")
+    report("corpus:commit-retry", cfg, events, drv, log, None, store)
+    sent = [o[1] for st in CL.split_steps(drv.trace)[0] for o in st if o[0] == CL.OUT_COMMIT]
+    if sent != [1, 5] or store.committed != 5 or drv.consumer.last_committed_offset != 5:
+        ck.violation({"kind": "corpus commit-retry: commit requests carried %r (expected [1, 5]), the store holds %r, last_committed_offset %r"
+                              % (sent, store.committed, drv.consumer.last_committed_offset),
+                      "cfg": cfg.line(), "events": C02.jsonable(events), "replay_op": "events"})
+
     # --- 1. honest histories with a group, then crash and resume
     n_runs = 90 * scale
     resumes = 0
@@ -138,17 +164,19 @@ def run(ck):
         length = rnd.choice([30, 50, 80]) * (2 if thorough else 1)      # process death = the schedule simply ends here
         w = {CL.EV_COMMIT: 4, "commit_reply": 10, CL.EV_TICK: 4, "retain": 0}
         first = [(CL.EV_START, rnd.choice([CL.OFFSET_COMMITTED, CL.OFFSET_COMMITTED, CL.OFFSET_EARLIEST, ents[0] if ents else 0]))]
-        events, drv, env = LL.honest_run(rnd, cfg, log, store, length, weights=w, fault=rnd.choice([0.0, 0.1, 0.25]), first=first)
+        events, drv, env = LL.honest_run(rnd, cfg, log, store, length, weights=w, fault=rnd.choice([0.0, 0.1, 0.25]), first=first,
+                                         lost_commits=rnd.choice([0.0, 0.3, 0.6]))
         report("life1", cfg, events, drv, log, store0, store)
         ck.hist("lives")
         ck.hist("commits_acknowledged", len(store.acked))
+        ck.hist("commits_applied_answer_lost", len(store.lost))
         done1 = completed_offsets(LL, CL, events, drv.trace)
         c = store.committed
         # at-least-once across the crash: if the committed offset was acknowledged since the last change of start position,
         # everything delivered since then at or below it was processed before the crash
         steps_, _ = CL.split_steps(drv.trace)
-        cur, done_cur, acked_cur = LL.epoch_state(events, steps_)
-        if c is not None and acked_cur and acked_cur[-1] == c and c in done_cur:
+        cur, done_cur, acked_cur, sent_cur = LL.epoch_state(events, steps_)
+        if c is not None and c in sent_cur and c in done_cur:
             late = [x for x in cur if x <= c and x not in done_cur]
             if late:
                 ck.violation({"kind": "monitor", "theorem": "C03_commit_le_processed (at the crash point)",
